@@ -95,6 +95,15 @@ SPOK_VALID_FMT = '# A variable\nNAME := "value"\n# Say hello\ntask hello("*.txt"
 SPOK_VALID_UNFMT = '#A variable\nNAME:="value"\n\n\n#Say hello\ntask   hello( "*.txt" ){\n echo hello {{.NAME}}\n}\n# The default\ntask default(hello) { echo default }\n'
 SPOK_SYNTAXBAD = 'NAME := "value\ntask hello( {\n'
 SPOK_LOADBAD = 'NAME := nope("x")\ntask hello() {\n    echo hello\n}\n'
+# spokfiles that parse but do not load, each for a different reason (none in canonical layout, so a --fmt that went ahead would show):
+# unknown builtin; a failing exec; exec with two arguments; an unclosed template action and an unknown template function in a command;
+# a task defined twice.  Only evaluation / task construction sees most of them, a static look at the tree does not.
+LOADBAD_TEXTS = [SPOK_LOADBAD,
+                 'NAME:=exec("exit 3")\ntask hello() {\n    echo hello\n}\n',
+                 'NAME:=exec("echo a", "b")\ntask hello() {\n    echo hello\n}\n',
+                 'NAME:="v"\ntask hello() {\n    echo {{.NAME\n}\n',
+                 'NAME:="v"\ntask hello() {\n    echo {{.NAME | upper}}\n}\n',
+                 'NAME:="v"\ntask hello() {\n    echo a\n}\ntask hello() {\n    echo b\n}\n']
 KIND_TEXT = {"formatted": SPOK_VALID_FMT, "unformatted": SPOK_VALID_UNFMT, "syntaxbad": SPOK_SYNTAXBAD, "loadbad": SPOK_LOADBAD}
 FLAG_ARGV = {"init": "--init", "fmt": "--fmt", "vars": "--vars", "clean": "--clean", "show": "--show", "quiet": "--quiet", "debug": "--debug", "json": "--json",
              "force": "--force", "task": "hello"}
@@ -121,14 +130,15 @@ def c19_scenarios(ctx, abstract, tier):
                      # neighbours a careless rewrite could use as scratch or backup names
                      {"p": "proj/spokfile.tmp", "c": "mine\n"}, {"p": "proj/spokfile.bak", "c": "mine\n"}, {"p": "proj/.spokfile.swp", "c": "mine\n"},
                      {"p": "proj/spokfile~", "c": "mine\n"}, {"p": "proj/spokfile.new", "c": "mine\n"}, {"p": "proj/.gitignore.tmp", "c": "mine\n"}]
+            ktext = LOADBAD_TEXTS[len(scen) % len(LOADBAD_TEXTS)] if a["kind"] == "loadbad" else KIND_TEXT.get(a["kind"], "")
             if a["kind"] != "missing" and linked:
                 # the spokfile is a symbolic link to a regular file kept elsewhere (a shared / generated spokfile): Find accepts it, so it
                 # is "an existing spokfile" for --init, and --fmt may rewrite the file it leads to, nothing else
                 files.append({"p": "conf/", "dir": True})
-                files.append({"p": "conf/real.spok", "c": KIND_TEXT[a["kind"]]})
+                files.append({"p": "conf/real.spok", "c": ktext})
                 files.append({"p": "proj/spokfile", "link": "../conf/real.spok"})
             elif a["kind"] != "missing":
-                files.append({"p": "proj/spokfile", "c": KIND_TEXT[a["kind"]]})
+                files.append({"p": "proj/spokfile", "c": ktext})
             if a["gitignore"]:
                 files.append({"p": "proj/.gitignore", "c": GITIGNORES[var]})
                 files.append({"p": "proj/sub/deep/.gitignore", "c": "tmp/" + GITIGNORES[var]})
@@ -315,7 +325,7 @@ def c13_scenarios(tier, seed):
     rnd = random.Random(seed)
     scen, meta = [], []
 
-    def add(vars_, cmds, tag="", after=None):
+    def add(vars_, cmds, tag="", after=None, outvar=None):
         text = ""
         for v in vars_:
             if v["kind"] == "str":
@@ -324,7 +334,7 @@ def c13_scenarios(tier, seed):
                 text += "%s := join(%s)\n" % (v["name"], ", ".join('"%s"' % a for a in v["args"]))
             else:
                 text += '%s := exec("%s")\n' % (v["name"], v["cmd"])
-        text += "\ntask t() {\n"
+        text += "\ntask t() {\n" if not outvar else "\ntask t() -> %s {\n" % outvar      # the variable also names an output of the task
         for c in cmds:
             line = ""
             for p in c["pieces"]:
@@ -364,6 +374,19 @@ def c13_scenarios(tier, seed):
         for val in VALS:
             vs = [mkvar(n, "str", val)]
             add(vs, cmds_for(vs))
+    # a variable that is also a named output of the task (`-> NAME`): resolving the output path must not touch the variable
+    for n, val in (("FRESHV", "bin/app"), ("AMBV", "dist"), ("DOTV", "./out/x.bin"), ("FRESHV", "../rel")):
+        vs = [mkvar(n, "str", val)]
+        add(vs, cmds_for(vs), tag="named-output", outvar=n)
+    vs = [mkvar("FRESHV", "str", "bin/app"), mkvar("AMBV", "str", "other")]
+    add(vs, cmds_for(vs), tag="named-output", outvar="FRESHV")
+    # a value that ends in a backslash (a backslash is an ordinary character of a string): kept away from the end of the command line,
+    # where the shell would read it as a line continuation
+    for n in ("FRESHV", "AMBV"):
+        vs = [mkvar(n, "str", "C:\\out\\")]
+        add(vs, [{"pieces": [{"k": "lit", "s": "echo 'x"}, {"k": "t", "s": n}, {"k": "lit", "s": "y'"}], "envname": ""},
+                 {"pieces": [{"k": "lit", "s": "printenv " + n}], "envname": n},
+                 {"pieces": [{"k": "lit", "s": 'echo "'}, {"k": "e", "s": n}, {"k": "lit", "s": '"'}], "envname": n}], tag="trailing-backslash")
     # names the shell interpreter itself maintains (a known finding: the interpreter's value wins)
     for n in ("PWD", "IFS", "OPTIND"):
         vs = [mkvar(n, "str", "v")]
@@ -450,14 +473,15 @@ def c12_scenarios(tier, seed):
     scen, meta = [], []
     tree = ["bin/tool", "bin/keep.txt", "build/a.o", "build/b.o", "build/readme.md", "dist/pkg/x.tar", "dist/pkg/sub/y.tar", "src/main.go", "src/a.o", "out.txt", "notes.md",
             ".hidden/z.o", "decoy/out.txt", "build.log", "out.txt.bak", "dist/pkg.sha", ".x_cache/f.bin", "my_cache/f.bin", "my_cache/sub/g.bin", "cache.db", "zcache"]
-    kinds = ["litfile", "litdir", "named_rel", "named_join", "glob", "glob_none", "missing", "litdir_build", "litfile_buildlog", "glob_top", "litfile_bak", "litfile_sha",
+    kinds = ["glob_dirs", "litfile", "litdir", "named_rel", "named_join", "glob", "glob_none", "missing", "litdir_build", "litfile_buildlog", "glob_top", "litfile_bak", "litfile_sha",
              "lit_linkdir", "named_linkfile", "lit_dotslash", "lit_trailing", "lit_updown", "named_abs_inside", "litdir_dist", "lit_cachedir", "lit_abs_outside", "lit_abs_inside",
-             "named_empty", "named_dot", "lit_parent", "named_abs_outside", "glob_spok", "lit_spokfile"]
+             "named_empty", "named_dot", "lit_parent", "named_abs_outside", "glob_spok", "lit_spokfile",
+             "named_abs_proj_slash", "named_abs_proj_dots", "lit_abs_proj_slash"]
     n = 400 if tier == "quick" else 20000
     for it in range(n):
         present = [p for p in tree if rnd.random() < 0.75]
         nout = rnd.randint(0, 5)
-        chosen = [rnd.choice(kinds[:22] if rnd.random() < 0.8 else kinds) for _ in range(nout)]
+        chosen = [rnd.choice(kinds[:23] if rnd.random() < 0.8 else kinds) for _ in range(nout)]
         cwd_nested = rnd.random() < 0.3
         elsewhere = (not cwd_nested) and rnd.random() < 0.2      # run from an unrelated directory with --spokfile
         has_clean = rnd.random() < 0.15
@@ -500,6 +524,12 @@ def c12_scenarios(tier, seed):
                 vars_.append(("EMPTY%s" % "ABCDE"[k], '""')); outs.append("EMPTY%s" % "ABCDE"[k]); degenerate = True
             elif kind == "named_dot":
                 vars_.append(("DOT%s" % "ABCDE"[k], '"."')); outs.append("DOT%s" % "ABCDE"[k]); degenerate = True
+            elif kind == "named_abs_proj_slash":     # the project directory itself, spelled absolutely but not canonically
+                vars_.append(("PROJS%s" % "ABCDE"[k], '"@HOME@/proj/"')); outs.append("PROJS%s" % "ABCDE"[k]); degenerate = True
+            elif kind == "named_abs_proj_dots":
+                vars_.append(("PROJD%s" % "ABCDE"[k], '"@HOME@/proj/src/.."')); outs.append("PROJD%s" % "ABCDE"[k]); degenerate = True
+            elif kind == "lit_abs_proj_slash":
+                outs.append('"@HOME@//proj/"'); degenerate = True
             elif kind == "lit_parent":
                 outs.append('".."'); degenerate = True
             elif kind == "named_abs_outside":
@@ -509,6 +539,10 @@ def c12_scenarios(tier, seed):
                 for p in present:
                     if p.startswith("build/") and p.endswith(".o"):
                         des.append(["proj"] + p.split("/")); alt.append(["proj"] + p.split("/"))
+            elif kind == "glob_dirs":        # a pattern ending in a separator matches directories only: dist/pkg goes, the file dist/pkg.sha stays
+                outs.append('"dist/*/"')
+                if any(p.startswith("dist/pkg/") for p in present):
+                    des.append(["proj", "dist", "pkg"]); alt.append(["proj", "dist", "pkg"])
             elif kind == "glob_none":
                 outs.append('"**/*.nomatch"')
             elif kind == "glob_spok":
